@@ -29,6 +29,8 @@ def cases_for(rng, n, per):
     for _ in range(n):
         g = gg.grammar()
         cfg = D.default_cfg(skipws=rng.random() < 0.8, ws=G.codes(rng.choice(["", "", " ", " \n", "\t "])))
+        if not cfg["ws"] and rng.random() < 0.15:
+            cfg["wsnone"] = True           # ws='' given: nothing is whitespace, comments are still skipped
         sg = G.SentenceGen(rng, g)
         has_c = any(r["name"] == "Comment" for r in g["rules"])
         for _k in range(per):
